@@ -1,15 +1,168 @@
 //! Direct enumerations for C07 (setter validation), C09, C14, C19 and C20.
+//! Common scaffolding lives here; the per-property sweeps are in `d_c09.rs`, `d_c14.rs`,
+//! `d_c19.rs`, `d_c20.rs`.
 #![allow(dead_code)]
+use crate::bench::Bench;
+use crate::cfg::BrokerCfg;
 use crate::direct::CaseOut;
 use crate::explore::Caps;
 use crate::families::Tier;
+use crate::mqtt_ref::{self as mr, CPacket, Prop, SPacket};
 use crate::report::FamilyReport;
+use crate::world::{Res, VirtualIo};
+use minimq::{Buffers, ConfigBuilder, Connection, Property, QoS, Session, Will};
 use serde_json::Value;
 
-pub fn direct(_prop: &str, _tier: Tier, _caps: &Caps) -> Vec<FamilyReport> {
-    vec![]
+/// Static description of a session to build.
+#[derive(Clone, Debug)]
+pub struct Spec {
+    pub rx: usize,
+    pub tx: usize,
+    pub id: String,
+    pub keepalive: u16,
+    pub expiry: u32,
+    pub downgrade: bool,
+    pub auth: Option<(String, Vec<u8>)>,
+    pub will: Option<WillSpec>,
 }
 
-pub fn replay_case(_name: &str, _case: &Value) -> Option<CaseOut> {
-    None
+#[derive(Clone, Debug)]
+pub struct WillSpec {
+    pub topic: String,
+    pub data: Vec<u8>,
+    pub qos: u8,
+    pub retain: bool,
+    pub props: Vec<Prop>,
+}
+
+impl Spec {
+    pub fn plain(rx: usize, tx: usize) -> Spec {
+        Spec {
+            rx,
+            tx,
+            id: "mcx".into(),
+            keepalive: 0,
+            expiry: 100,
+            downgrade: false,
+            auth: None,
+            will: None,
+        }
+    }
+}
+
+pub fn qos_of(q: u8) -> QoS {
+    match q {
+        0 => QoS::AtMostOnce,
+        1 => QoS::AtLeastOnce,
+        _ => QoS::ExactlyOnce,
+    }
+}
+
+pub enum Built<R> {
+    /// the configuration itself was refused
+    Config(String),
+    Ran(R),
+}
+
+/// Build a session from `spec` and hand it to `f` together with a manual bench.
+pub fn with_session<R>(spec: &Spec, f: impl for<'b> FnOnce(&Bench, &mut Session<'b>) -> R) -> Built<R> {
+    let bench = Bench::new(true, BrokerCfg::default(), spec.rx);
+    let mut rx = vec![0u8; spec.rx];
+    let mut tx = vec![0u8; spec.tx];
+    let mut b = match ConfigBuilder::new(Buffers::new(&mut rx, &mut tx)).client_id(&spec.id) {
+        Ok(b) => b,
+        Err(e) => return Built::Config(format!("{:?}", e)),
+    };
+    b = b.keepalive_interval(spec.keepalive).session_expiry_interval(spec.expiry);
+    if spec.downgrade {
+        b = b.autodowngrade_qos();
+    }
+    let auth = spec.auth.clone();
+    if let Some((u, p)) = &auth {
+        b = match b.auth(u, p) {
+            Ok(b) => b,
+            Err(e) => return Built::Config(format!("{:?}", e)),
+        };
+    }
+    let wspec = spec.will.clone();
+    let wprops_ref: Vec<Prop> = wspec.as_ref().map(|w| w.props.clone()).unwrap_or_default();
+    let wprops: Vec<Property<'_>> = wprops_ref.iter().filter_map(crate::convert::ref_to_prop).collect();
+    if let Some(w) = &wspec {
+        let will = match Will::new(&w.topic, &w.data, &wprops) {
+            Ok(will) => will,
+            Err(e) => return Built::Config(format!("{:?}", e)),
+        };
+        let mut will = will.qos(qos_of(w.qos));
+        if w.retain {
+            will = will.retained();
+        }
+        b = match b.will(will) {
+            Ok(b) => b,
+            Err(e) => return Built::Config(format!("{:?}", e)),
+        };
+    }
+    let mut s = Session::new(b);
+    Built::Ran(f(&bench, &mut s))
+}
+
+pub fn connack(session_present: bool, props: Vec<Prop>) -> Vec<u8> {
+    SPacket::ConnAck {
+        session_present,
+        reason: 0,
+        props,
+    }
+    .encode()
+}
+
+pub enum Conn<'s, 'b> {
+    Ok(Connection<'s, 'b, VirtualIo>, usize),
+    Err(Res, usize),
+    Blocked(usize),
+}
+
+/// `connect()` on a fresh transport whose inbound side already holds `connack`.
+pub fn connect<'s, 'b>(bench: &Bench, s: &'s mut Session<'b>, connack: &[u8]) -> Conn<'s, 'b> {
+    let (io, id) = bench.io();
+    bench.push(id, connack);
+    match bench.run(s.connect(io), id) {
+        Some(Ok(c)) => Conn::Ok(c, id),
+        Some(Err(e)) => Conn::Err(Res::from_err(&e), id),
+        None => Conn::Blocked(id),
+    }
+}
+
+/// Everything written on `conn`, strictly decoded. `Err` carries the reason.
+pub fn wire(bench: &Bench, conn: usize) -> Result<Vec<(CPacket, Vec<u8>)>, String> {
+    bench.packets(conn)
+}
+
+pub fn props_of(v: &[Prop]) -> Vec<Property<'_>> {
+    v.iter().filter_map(crate::convert::ref_to_prop).collect()
+}
+
+pub fn direct(prop: &str, tier: Tier, caps: &Caps) -> Vec<FamilyReport> {
+    match prop {
+        "C07" => crate::d_c07::run(tier, caps),
+        "C09" => crate::d_c09::run(tier, caps),
+        "C14" => crate::d_c14::run(tier, caps),
+        "C19" => crate::d_c19::run(tier, caps),
+        "C20" => crate::d_c20::run(tier, caps),
+        _ => vec![],
+    }
+}
+
+pub fn replay_case(name: &str, case: &Value) -> Option<CaseOut> {
+    if name.starts_with("C07") {
+        crate::d_c07::replay(name, case)
+    } else if name.starts_with("C09") {
+        crate::d_c09::replay(name, case)
+    } else if name.starts_with("C14") {
+        crate::d_c14::replay(name, case)
+    } else if name.starts_with("C19") {
+        crate::d_c19::replay(name, case)
+    } else if name.starts_with("C20") {
+        crate::d_c20::replay(name, case)
+    } else {
+        None
+    }
 }
